@@ -206,9 +206,6 @@ func runC14(env *lib.Env, rep *lib.Report) {
 			c.NonTrivial()
 		}
 		knownID := ""
-		if _, ok := known["D16-failing-multirow-half-applied"]; ok && f.K >= 2 {
-			knownID = "D16-failing-multirow-half-applied"
-		}
 		defer func() {
 			if knownID != "" {
 				if c.Failed() {
@@ -219,6 +216,12 @@ func runC14(env *lib.Env, rep *lib.Report) {
 			}
 		}()
 		obs := c.Choose(5, "observe")
+		// D16 predicate (input only): the first failing row is not the first row, and the state is observed
+		// before a crash could have thrown the unlogged rows away (a crash without a flush does: then the
+		// state must equal the one before the statement, and a failure is a violation)
+		if _, ok := known["D16-failing-multirow-half-applied"]; ok && f.K >= 2 && obs != 3 {
+			knownID = "D16-failing-multirow-half-applied"
+		}
 		switch obs {
 		case 0:
 			c.Logf("observe immediately")
